@@ -38,6 +38,31 @@ type nd struct {
 	ticks    int
 	restarts int
 	changes  int
+	hc       *holdClient
+}
+
+// holdClient is the node's gossip transport client. While hold is set, the third message of
+// an exchange this node initiates (the records the peer asked for) is not delivered but kept:
+// the initiator's call returns, and the message arrives when the harness delivers it - after
+// whatever other exchanges happened at that peer in the meantime.
+type holdClient struct {
+	gossip.TransportClient
+	hold bool
+	held *heldMsg
+}
+
+type heldMsg struct {
+	to  address.Address
+	msg gossip.Message
+}
+
+func (h *holdClient) Send(c context.Context, to address.Address, msg gossip.Message) (gossip.Message, error) {
+	if h.hold && len(msg.Digests) == 0 && len(msg.Nodes) != 0 {
+		cp := gossip.Message{Nodes: msg.Nodes.Copy()}
+		h.held = &heldMsg{to, cp}
+		return gossip.Message{}, nil
+	}
+	return h.TransportClient.Send(c, to, msg)
 }
 
 type sys struct {
@@ -52,6 +77,7 @@ type scenario struct {
 	knowledge string // full | chain | star
 	maxTicks  int
 	depth     int
+	late      bool // exchanges whose third message is delivered late are part of the alphabet
 }
 
 func hbs(h version.Heartbeat) string { return fmt.Sprintf("%d.%d", h.Generation, h.Version) }
@@ -66,11 +92,12 @@ func build(states []store.State) []*nd {
 	for i, s := range states {
 		st := store.New(ctx)
 		st.SetState(ctx, s)
-		g, err := gossip.New(gossip.Config{Store: st, TransportClient: net.UnaryClient(), TransportServer: servers[i], Interval: time.Hour})
+		hc := &holdClient{TransportClient: net.UnaryClient()}
+		g, err := gossip.New(gossip.Config{Store: st, TransportClient: hc, TransportServer: servers[i], Interval: time.Hour})
 		if err != nil {
 			panic(err)
 		}
-		nodes = append(nodes, &nd{key: node.Key(i + 1), st: st, g: g, addr: servers[i].Address})
+		nodes = append(nodes, &nd{key: node.Key(i + 1), st: st, g: g, addr: servers[i].Address, hc: hc})
 	}
 	return nodes
 }
@@ -124,8 +151,21 @@ func (s *sys) Ops() []string {
 			}
 		}
 	}
+	if s.sc.late {
+		for i, n := range s.nodes {
+			if n.hc.held != nil {
+				ops = append(ops, fmt.Sprintf("deliver %d", i+1))
+				continue
+			}
+			for j := range s.nodes {
+				if i != j && s.knows(i, j) {
+					ops = append(ops, fmt.Sprintf("exlate %d %d", i+1, j+1))
+				}
+			}
+		}
+	}
 	for i, n := range s.nodes {
-		if n.changes < 1 {
+		if n.changes < 1 && !s.sc.late { // the late-delivery scenarios change records by ticks and restarts only
 			ops = append(ops, fmt.Sprintf("state %d", i+1))
 		}
 		if n.restarts < 1 {
@@ -178,6 +218,22 @@ func (s *sys) Apply(op string) (string, error) {
 		if err := n.g.GossipOnceWith(ctx, s.nodes[b-1].addr); err != nil {
 			return "", vk.Violationf("exchange-error", "%s failed: %v", op, err)
 		}
+	case "exlate":
+		n.hc.hold = true
+		err := n.g.GossipOnceWith(ctx, s.nodes[b-1].addr)
+		n.hc.hold = false
+		if err != nil {
+			return "", vk.Violationf("exchange-error", "%s failed: %v", op, err)
+		}
+		if n.hc.held == nil {
+			obs = "nothing-to-send"
+		}
+	case "deliver":
+		h := n.hc.held
+		n.hc.held = nil
+		if _, err := n.hc.TransportClient.Send(ctx, h.to, h.msg); err != nil {
+			return "", vk.Violationf("exchange-error", "%s failed: %v", op, err)
+		}
 	}
 	if err := s.monotone(op, before, s.snapshot()); err != nil {
 		return "", err
@@ -227,6 +283,9 @@ func (s *sys) Canon() string {
 	var b strings.Builder
 	for i, n := range s.nodes {
 		fmt.Fprintf(&b, "N%d[%s|t%d r%d c%d] ", i+1, groupCanon(n.st.CopyState().Nodes), n.ticks, n.restarts, n.changes)
+		if n.hc.held != nil {
+			fmt.Fprintf(&b, "held->%s[%s] ", n.hc.held.to, groupCanon(n.hc.held.msg.Nodes))
+		}
 	}
 	return b.String()
 }
@@ -326,19 +385,22 @@ func main() {
 	var scs []scenario
 	if r.Quick() {
 		scs = []scenario{
-			{"3 nodes, full knowledge", 3, "full", 1, 5},
-			{"3 nodes, chain knowledge (i knows i+1)", 3, "chain", 1, 5},
-			{"3 nodes, star knowledge (all know node 1 only)", 3, "star", 1, 5},
-			{"2 nodes, full knowledge, 2 ticks per generation", 2, "full", 2, 8},
+			{"3 nodes, full knowledge", 3, "full", 1, 5, false},
+			{"3 nodes, chain knowledge (i knows i+1)", 3, "chain", 1, 5, false},
+			{"3 nodes, star knowledge (all know node 1 only)", 3, "star", 1, 5, false},
+			{"2 nodes, full knowledge, 2 ticks per generation", 2, "full", 2, 8, false},
+			{"3 nodes, full knowledge, third message of an exchange may arrive late", 3, "full", 1, 5, true},
 		}
 	} else {
 		scs = []scenario{
-			{"3 nodes, full knowledge", 3, "full", 2, 8},
-			{"3 nodes, chain knowledge (i knows i+1)", 3, "chain", 2, 8},
-			{"3 nodes, star knowledge (all know node 1 only)", 3, "star", 2, 8},
-			{"2 nodes, full knowledge, 2 ticks per generation", 2, "full", 2, 14},
-			{"4 nodes, chain knowledge", 4, "chain", 1, 6},
-			{"4 nodes, star knowledge", 4, "star", 1, 6},
+			{"3 nodes, full knowledge", 3, "full", 2, 8, false},
+			{"3 nodes, chain knowledge (i knows i+1)", 3, "chain", 2, 8, false},
+			{"3 nodes, star knowledge (all know node 1 only)", 3, "star", 2, 8, false},
+			{"2 nodes, full knowledge, 2 ticks per generation", 2, "full", 2, 14, false},
+			{"4 nodes, chain knowledge", 4, "chain", 1, 6, false},
+			{"4 nodes, star knowledge", 4, "star", 1, 6, false},
+			{"3 nodes, full knowledge, third message of an exchange may arrive late", 3, "full", 2, 7, true},
+			{"3 nodes, chain knowledge, third message of an exchange may arrive late", 3, "chain", 1, 6, true},
 		}
 	}
 	mk := func(sc scenario) seqx.Config {
